@@ -314,7 +314,7 @@ def check_c09(res, tier, replay):
         res.violation({'broken': 'correspondence', 'name': 'race-detector build', 'build_msg': msg[-2000:]}, True)
         return res.finish()
     hi = 6 if tier == 'quick' else 12
-    k_inputs = 4 if tier == 'quick' else 7
+    k_inputs = 6 if tier == 'quick' else 9
     cases = []
     if replay:
         cases = json.load(open(replay)).get('cases', [])
@@ -331,7 +331,7 @@ def check_c09(res, tier, replay):
                     envs.append(streams)
                 cases.append(dict(kind='IND', name=name, ns=ns, fs=fs, envs=envs))
         for name in list(SCAT.keys()) + WRAPPED + ['MacdRsi']:
-            for j in range(1 if tier == 'quick' else 3):
+            for j in range(2 if tier == 'quick' else 4):
                 if name in SCAT:
                     ns, fs = SCAT[name]['cfg'](rng, hi)
                     ns, fs = list(ns), list(fs)
